@@ -59,9 +59,22 @@ def _base_op(g, prog, st, verif_seed, index):
         n = g.randint(2, 5)
         return {"op": "gen_seq", "name": "s", "out": "res/seq.json", "seq": ["A", "B"],
                 "macros": [f"A:{n}:1:RA-1.0", f"B:{g.randint(1, 3)}:{g.randint(1, 2)}:RB-1.0"], "connects": ["0:1:0-0"]}
-    job, _ = jobgen.base_job("C20gc", verif_seed, "quick", index, COORD_PROFILE)
-    return {"op": "gen_coords", "spec": job["spec"], "opts": {"box": job["opts"]["box"]}, "out": "res/out.gro",
-            "seed": g.getrandbits(16), "stop_at": ["file_writer.py", "write"]}
+    job, jst = jobgen.base_job("C20gc", verif_seed, "quick", index, COORD_PROFILE)
+    op = {"op": "gen_coords", "spec": job["spec"], "opts": {"box": job["opts"]["box"]}, "out": "res/out.gro",
+          "seed": g.getrandbits(16), "stop_at": ["file_writer.py", "write"]}
+    r = g.random()
+    if r < 0.35:
+        # part of an earlier build supplied with -c: the "loading coordinates" stage is in the pipeline
+        job["tape"] = {}
+        if jobgen.add_coordinates(job, jst.gen, {"coord_modes": ["prefix", "res"]}) and job.get("coord_ext") != "pdb":
+            op["coord_text"] = job["coord_text"]
+            if job["opts"].get("build_res"):
+                op["build_res"] = job["opts"]["build_res"]
+            op["opts"] = {"box": job["coord_box"]}
+    elif r < 0.6:
+        from gen import bldgen
+        op["build_text"] = bldgen.render(bldgen.gen_build_spec(g, job["spec"], job["opts"]["box"], ["geom", "rw"]))
+    return op
 
 
 def gen_job(verif_seed, tier, index):
@@ -101,7 +114,7 @@ def gen_job(verif_seed, tier, index):
     follow = [histgen.make_op(ff2, ffgen.gen_resgraph(g, ff2, maxn=4), g, out="res/later.itp")]
     if g.random() < 0.5:
         follow.append(dict(op, pre_files=[], pre_links=[], crash_at=None))      # the failed job again, now succeeding
-    natural = g.random() < 0.25 and prog == "gen_params"
+    natural = g.random() < 0.5 and prog == "gen_params"
     return {"index": index, "run_seed": seed, "prog": prog, "op": op, "follow": follow, "state": state,
             "hashseed": st.env.choice(histgen.PALETTE), "natural": natural,
             "sample_k": 60 if tier == "quick" else 250,
